@@ -1,4 +1,5 @@
 """C07 — all query front ends, cursors and groupby agree with find_jobs."""
+import os
 import contextlib
 import copy
 import io
@@ -44,7 +45,7 @@ RULE = (
 )
 CLASSES = [
     "R1", "R2", "R3", "R4", "R5", "R6", "R7", "cli_tokens", "string_filter", "slice", "neg_index",
-    "contains_uninitialised", "groupby_nested", "groupby_doc", "groupby_tuple_mixed", "groupby_default",
+    "contains_uninitialised", "number_subclass_values", "contains_handle_of_other_project_object", "groupby_nested", "groupby_doc", "groupby_tuple_mixed", "groupby_default",
     "groupby_callable", "groupby_on_filtered_cursor", "groupby_none",
 ]
 ASSUMPTIONS = [
@@ -887,6 +888,25 @@ def check_cursor(project, make, ids, all_ids, uninit, slices, tag, mms, cl, full
         mms.append(Mismatch("cursor_contains", f"{tag}: (job in cursor) is {inside[bad[0]]} for job {bad[0]} but selected={bad[0] in ids}"))
     if not full:
         return
+    # the same jobs through other handles on the same data space: a second Project object, an object of a user's
+    # Project subclass, the project opened through a symbolic link to its directory
+    link = project.path.rstrip(os.sep) + ".lnk"
+    try:
+        sub = type("MyProject", (type(project),), {})
+        os.symlink(project.path, link)
+        for who, p2 in (("a second Project object", type(project)(project.path)), ("an object of a Project subclass", sub(project.path)),
+                        ("the project opened through a symlinked path", type(project)(link))):
+            got = {jid: (p2.open_job(id=jid) in c2) for jid in sorted(all_ids)}
+            bad = sorted(j for j, r in got.items() if r != (j in ids))
+            if bad:
+                mms.append(Mismatch("cursor_contains", f"{tag}: (job in cursor) is {got[bad[0]]} for job {bad[0]} opened through {who}, but selected={bad[0] in ids}"))
+                break
+        cl.add("contains_handle_of_other_project_object")
+    except Exception as e:
+        mms.append(Mismatch("cursor_raises", f"{tag}: membership of a job opened through another Project object raised {type(e).__name__}: {e}"))
+    finally:
+        if os.path.islink(link):
+            os.remove(link)
     for sp in uninit:
         try:
             r = project.open_job(sp) in c2
@@ -920,6 +940,33 @@ def check_cursor(project, make, ids, all_ids, uninit, slices, tag, mms, cl, full
 # ---------------------------------------------------------------------------
 # executor
 # ---------------------------------------------------------------------------
+
+
+class _Kelvin(float):
+    """A user's float subclass (a unit, a numpy-like scalar): serialises like the float it is."""
+
+
+class _Count(int):
+    """A user's int subclass."""
+
+
+def _subclassed(v):
+    """(copy of filter v with every float / int leaf replaced by a subclass instance of the same value, how many)."""
+    if isinstance(v, dict):
+        out, n = {}, 0
+        for k, x in v.items():
+            y, m = _subclassed(x)
+            out[k] = y
+            n += m
+        return out, n
+    if isinstance(v, list):
+        pairs = [_subclassed(x) for x in v]
+        return [p[0] for p in pairs], sum(p[1] for p in pairs)
+    if type(v) is float:
+        return _Kelvin(v), 1
+    if type(v) is int:
+        return _Count(v), 1
+    return v, 0
 
 
 def _find(project, spelled, parsed_out=None):
@@ -1011,6 +1058,17 @@ def run_case(case, ctx):
                 continue
             usable = make
             check_cursor(project, make, ids, all_ids, uninit, slices, tag, mms, cl, full=(i == len(sps) - 1))
+        # numbers that are instances of subclasses of float / int (numpy-like scalars, unit classes): the same JSON
+        sub, nsub = _subclassed(json.loads(json.dumps(base)))
+        if nsub:
+            cl.add("number_subclass_values")
+            tag = f"spelling of {base!r} with {nsub} number(s) given as instances of float / int subclasses"
+            try:
+                got = {j.id for j in project.find_jobs(sub)}
+                if got != ids:
+                    mms.append(Mismatch("spelling_number_subclass", f"{tag} selects {len(got)} jobs, the base spelling {len(ids)}; disagree on {_show(data, sorted(got ^ ids))}"))
+            except Exception as e:
+                mms.append(Mismatch("spelling_number_subclass", f"{tag} raised {type(e).__name__}: {e}; the base spelling selects {len(ids)} of {len(all_ids)}"))
         check_cursor(project, _find(project, json.loads(json.dumps(base))), ids, all_ids, uninit, slices, tag0, mms, cl)
         if n_eff >= 2 and ids and ids != all_ids:
             nontrivial = True
